@@ -18,7 +18,7 @@ META = dict(
           "depends on the listing order; best and soft alignments returned by the library carry exactly those values.",
     trusted="z3; real arithmetic instead of float32; independent definition in harness/common.py",
     bounds=dict(quick="(+ returned best / soft alignments under the real combined dissimilarity with unlabelled and ''-labelled units, and under a declared-superset categorical component, (2,1)) n in {2,3,4} annotators, 1..2 unitary alignments, all empty-slot patterns, 3 listing orders per pattern (identity, reversed, rotated), "
-                      "with / without continuum; returned alignments: best and soft on (2,1),(2,2),(1,1,1)",
+                      "with / without continuum; hand-built alignments in which two annotators hold an identical unit (real positional dissimilarity, 3 annotators, 3 unitary alignments with empty slots); returned alignments: best and soft on (2,1),(2,2),(1,1,1)",
                 thorough="+ n = 5 with 1..2 unitary alignments, n <= 4 with 3 unitary alignments, all n! listing orders for n <= 4"),
     outside="float32 accumulation error; alignments with more than 3 unitary alignments (the kernel loop is per unitary alignment, independent)",
     stubs=["numba.njit = identity", "np float arrays = object arrays of z3 reals", "d_mat = one free symbol >= 0 per unit pair"],
@@ -34,6 +34,10 @@ def configs(tier):
             for cont in (False, True):
                 out.append(dict(key=f"hand-built,n={n},k={k},continuum={cont}", n=n, k=k, cont=cont, orders=3, cost=(2 ** n) ** k * 3))
     out.append(dict(key="cache-consistency,n=3", kind="cache", n=3, cost=20))
+    # two annotators holding an IDENTICAL unit (same segment, same label), empty slots, real positional dissimilarity: the mean number of units
+    # per annotator counts (annotator, unit) couples, with or without an attached continuum
+    for cont in (False, True):
+        out.append(dict(key=f"hand-built,twin-units-across-annotators,continuum={cont}", kind="twins", cont=cont, cost=30))
     for s in [(2, 1), (2, 2), (1, 1, 1)]:
         for mode in ("best", "soft"):
             out.append(dict(key=f"returned-{mode},sizes={s}", sizes=list(s), mode=mode, dissim="abstract", backend="cbc", cost=500))
@@ -118,9 +122,92 @@ def cache_harness(cfg, ns):
     return h
 
 
+TWINS = dict(units=[[(0, 10, "x"), (0, 10, "x"), (1, 11, "x")], [(20, 25, "y"), None, (21, 26, "x")], [None, (40, 44, "y"), None]])
+
+
+def _twins_definition(de):
+    """disorder by the definition, as a multiple of delta_empty (exact rationals)"""
+    tot = 0
+    n = 3
+    for tup in TWINS["units"]:
+        u = 0
+        for a in range(n):
+            for b in range(a):
+                if tup[a] is None or tup[b] is None:
+                    u = u + de
+                else:
+                    (s1, e1, _), (s2, e2, _) = tup[a], tup[b]
+                    r = Fraction(abs(s1 - s2) + abs(e1 - e2), (e1 - s1) + (e2 - s2))
+                    u = u + r * r * de
+        tot = tot + u / 3
+    nreal = sum(1 for tup in TWINS["units"] for x in tup if x is not None)
+    return tot / Fraction(nreal, n)
+
+
+def twins_harness(cfg, ns):
+    al, co, Segment = ns.al, ns.co, ns.Segment
+
+    def h(ctx):
+        de = ctx.fresh("de")
+        ctx.solver.add(de.e > 0)
+        D = ns.ds.PositionalSporadicDissimilarity(delta_empty=de)
+        names = ANN[:3]
+        rz = lambda m: dict(kind="twins", cont=cfg["cont"], de=common.frs(mval(m, de)))   # noqa: E731
+        ctx.notes["realize"] = rz
+        ctx.notes["inputs"] = [de]
+        ctx.notes["scales"] = [de]
+        want = _twins_definition(de)
+        obls = []
+        for order in ((0, 1, 2), (2, 1, 0), (1, 2, 0)):
+            uas = [al.UnitaryAlignment([(names[a], None if tup[a] is None else co.Unit(Segment(tup[a][0], tup[a][1]), tup[a][2])) for a in order]) for tup in TWINS["units"]]
+            cont = None
+            if cfg["cont"]:
+                cont = co.Continuum()
+                for ua in uas:
+                    for a, u in ua.n_tuple:
+                        if u is not None:
+                            cont.add(a, u.segment, u.annotation)
+            for cls in (al.Alignment, al.SoftAlignment):
+                A = cls(uas, cont)
+                obls.append(Obl(f"twins:{cls.__name__}.compute_disorder==definition[order={order}]", core.approx(A.compute_disorder(D), want, want), rz))
+                B = cls(uas, cont)
+                obls.append(Obl(f"twins:{cls.__name__}.disorder(summed from the unitary ones)==definition[order={order}]", core.approx(B.disorder, want, want), rz))
+        return obls
+    return h
+
+
+def _replay_twins(case):
+    import pygamma_agreement as pa
+    from pyannote.core import Segment
+    from pygamma_agreement.alignment import UnitaryAlignment, Alignment, SoftAlignment
+    bad = []
+    for de in sorted({float(Fraction(case["de"])), 1.0, 0.5}):
+        D = pa.PositionalSporadicDissimilarity(delta_empty=de)
+        want = float(_twins_definition(Fraction(de)))
+        names = ANN[:3]
+        for order in ((0, 1, 2), (2, 1, 0)):
+            uas = [UnitaryAlignment([(names[a], None if tup[a] is None else pa.Unit(Segment(tup[a][0], tup[a][1]), tup[a][2])) for a in order]) for tup in TWINS["units"]]
+            cont = None
+            if case.get("cont"):
+                cont = pa.Continuum()
+                for ua in uas:
+                    for a, u in ua.n_tuple:
+                        if u is not None:
+                            cont.add(a, u.segment, u.annotation)
+            for cls in (Alignment, SoftAlignment):
+                got = float(cls(uas, cont).compute_disorder(D))
+                B = cls(uas, cont)
+                lazy = float(B.disorder)
+                if abs(got - want) > 1e-4 * max(1e-3, want) or abs(lazy - want) > 1e-4 * max(1e-3, want):
+                    bad.append(f"{cls.__name__} over twin units (delta_empty={de}, continuum attached={bool(case.get('cont'))}): compute_disorder {got}, .disorder {lazy}, definition {want}")
+    return dict(reproduced=bool(bad), detail="; ".join(bad[:3]))
+
+
 def harness(cfg, ns):
     if cfg.get("kind") == "cache":
         return cache_harness(cfg, ns)
+    if cfg.get("kind") == "twins":
+        return twins_harness(cfg, ns)
     if "sizes" in cfg:
         return returned_harness(cfg, ns)
     n, k = cfg["n"], cfg["k"]
@@ -246,6 +333,8 @@ def replay(case):
         return pipeline.replay_pipeline(case)
     if case.get("kind") == "cache":
         return _replay_cache(case)
+    if case.get("kind") == "twins":
+        return _replay_twins(case)
     import itertools as it
     import numpy as np
     import pygamma_agreement as pa
